@@ -59,9 +59,9 @@ func init() {
 			{Name: "chaincrash", Engine: chain.Engine{Prop: "C07"}, Quick: 192, Thorough: 3000,
 				Rule: "a run is non-trivial when at least three heights were produced and at least one crash image of a consensus replica (data directory + CometBFT stores at the chosen instant inside block commit) was restarted through the CometBFT handshake and passed all comparisons up to the tip", Weight: 2},
 		},
-		Real:        []string{"badger and pathbadger Commit/Finalize/Prune/StartMultipartInsert/chunk Commit on tmpfs directories, written by a child OS process that exits abruptly (os.Exit) at the selected verifhook point", "reopen (db.New incl. multipart leftover cleanup), checkpoint restorer"},
-		Stub:        []string{"process death is os.Exit in a child process (no power-loss write reordering, no torn sectors; badger-internal partial batch application is not enumerable)"},
-		Assumptions: []string{"hook hits inside one operation are deterministic for a given history (checked: a child that does not reach the requested hit is a harness error)"},
+		Real:        []string{"badger and pathbadger Commit/Finalize/Prune/StartMultipartInsert/chunk Commit on tmpfs directories, written by a child OS process that exits abruptly (os.Exit) at the selected verifhook point", "reopen (db.New incl. multipart leftover cleanup), checkpoint restorer", "chain level: the ABCI mux with all consensus apps, abci doCommit/InitStateStorage/Info, MKVS + NodeDB on disk, the CometBFT Handshaker, BlockExecutor and stores of the restarted replica"},
+		Stub:        []string{"process death is os.Exit in a child process (no power-loss write reordering, no torn sectors; badger-internal partial batch application is not enumerable)", "chain level: the crash is an in-process image (copy of the replica's live data directory, repeated until the listing is stable, plus key-by-key copies of the in-memory CometBFT state and block stores); consensus reactor, mempool and evidence pool are the chain simulator's stubs"},
+		Assumptions: []string{"hook hits inside one operation are deterministic for a given history (checked: a child that does not reach the requested hit is a harness error)", "chain level: CometBFT's fail.Fail() points are represented by the harness-reachable instants before/after SaveBlock, before SaveABCIResponses, between ABCI Commit and state-store Save, and after ApplyBlock"},
 	})
 	reg(&core.Property{
 		ID: "C04", Level: "exploration",
